@@ -29,6 +29,14 @@ func (p *Prog) constsOfType(typeName string) map[string]string {
 	return out
 }
 
+// argN returns the i-th argument of a call or nil when out of range.
+func argN(c *ssa.Call, i int) ssa.Value {
+	if c == nil || i < 0 || i >= len(c.Call.Args) {
+		return nil
+	}
+	return c.Call.Args[i]
+}
+
 // cellOf: v is a load of a local variable cell: returns the cell.
 func cellOf(v ssa.Value) *ssa.Alloc {
 	u, ok := unwrap(v).(*ssa.UnOp)
